@@ -39,11 +39,13 @@ def case(draw, tier):
     outer = []
     n_src = draw(st.integers(1, 2))
     for i in range(n_src):
-        outer.append({"id": f"s{i}", "op": "src", "schema": "TS[int]", "script": draw(gen.int_script(start, end - 1, max_size=8 if big else 5))})
+        # sparse outer histories leave the sub-graph to its own schedule (the parent is idle when its timers fire)
+        sparse = draw(st.integers(0, 2)) == 0
+        outer.append({"id": f"s{i}", "op": "src", "schema": "TS[int]", "script": draw(gen.int_script(start, end - 1, max_size=2 if sparse else 8 if big else 5))})
     npar = draw(st.integers(1, 2))
     body, bports = [], [{"arg": j} for j in range(npar)]
     waive = draw(st.integers(0, 5)) == 0   # some bodies contain a node that runs with invalid inputs (valid=[])
-    if draw(st.integers(0, 2)) == 0:
+    if draw(st.integers(0, 1)) == 0:
         body.append({"id": "is", "op": "src", "schema": "TS[int]", "rel": True, "script": draw(gen.int_script(0, horizon, max_size=4))})
         bports.append("is")
     if draw(st.integers(0, 3)) == 0:
@@ -51,11 +53,18 @@ def case(draw, tier):
     for j in range(draw(st.integers(1, 4))):
         nin = draw(st.integers(1, min(2, len(bports))))
         ins = [draw(st.sampled_from(bports)) for _ in range(nin)]
+        if nin == 2 and draw(st.integers(0, 3)) == 0:
+            # one input read passively (it must not be the only active one)
+            k = draw(st.integers(0, 1))
+            r = ins[k]
+            ins[k] = dict(r, passive=True) if isinstance(r, dict) else {"r": r, "passive": True}
         node = {"id": f"b{j}", "op": "node", "ins": ins, "out": "TS[int]", "fn": draw(st.sampled_from(["sum", "acc", "count"])),
                 "coef": [draw(st.integers(1, 3)) for _ in ins], "bias": draw(st.integers(0, 4)), "log_inputs": False}
-        if draw(st.booleans()):
+        if draw(st.integers(0, 2)) != 0:
             node["sched"] = gen.rebase_sched(draw(gen.sched_script(horizon, 0, max_ops=2)), start)
             node["tags"] = gen.TAGS
+            if draw(st.integers(0, 4)) == 0:
+                node["schedule_on_start"] = True
         if waive and j == 0:
             node["valid"] = []
         body.append(node)
